@@ -4,7 +4,10 @@ PROPS["C14"] = dict(
     rule="case = (capacity, op list over Write/Read/ReadN/Skip/At/Clear); exhaustive over the full op alphabet "
          "(ReadN len 0..cap+2, Skip -1..cap+2 and MaxInt, At -1..cap+1 and MaxInt) for capacities 0..3(4) to the depth in exhaustive_parts, and once more to depth 3 (thorough 4) over that alphabet widened by the out-of-range arguments Skip(2^k+1), At(2^k) for k=16,31,32 whose low bits equal the smallest in-range argument, rapid lists "
          "for capacities 0..300 with arguments that also include +-2^31, +-2^40, MaxInt, MinInt and (one Skip/At argument in six) an in-range value moved out of range by a multiple (1,2,3,-1,-2,255,2^20) of 2^16, 2^31 or 2^32 (ReadN destination lengths: by 1..3 times 2^16 only, they must be allocated), and (one case in eleven) capacities 301..5000 incl. 2^k-1, 2^k, 2^k+1 whose short lists mix single calls with bulk fills "
-         "(N Write calls, N around the capacity - to the brim and beyond - or anywhere below; the O(cap) cleared-slot sweep then follows every non-Write op and every 64th Write); a shapes unit runs the same contract with other element types: strings and structs whose text looks like a format directive, and a "
+         "(N Write calls, N around the capacity - to the brim and beyond - or anywhere below; the O(cap) cleared-slot sweep then follows every non-Write op and every 64th Write); "
+         "a ReadN destination is the window scratch[F:F+N] of an array of F+N+B elements (F elements in front of it, B elements of spare capacity behind it, cap(dst)=N+B; F=B=0 is a slice made to measure): "
+         "the depth-3(4) pass of the exhaustive unit adds windows of every length 0..cap+1 with F=1 and room for a full buffer behind, two random ReadN calls in five (one in two in the shapes unit, one in three in the independent unit) draw F 0..3 and B 0..cap+2 with lengths leaning to the short ones incl. 0; "
+         "the count must be min(len(dst),Len) and never exceed len(dst), and the canary elements of the scratch outside the window must stay untouched; a shapes unit runs the same contract with other element types: strings and structs whose text looks like a format directive, and a "
          "zero-size element type with capacities up to MaxInt-1 (which only such a type can have; there the backing array exceeds 2^32 slots, so the Skip/At/ReadN arguments congruent to small values modulo 2^16, 2^31, 2^32 - systematic lists and one random argument in six, ReadN destinations of any length since they cost nothing - lie inside the array although out of range); "
          "an independent unit lets 2..8 goroutines work at the same time, each through families of its own private buffers (never shared; capacities 0..5000, a family = the same op list on capacities c..c+span-1, most lists first fill to one short of / exactly / beyond the brim; element shapes mixed), every buffer against the model - independent buffers must not interact through package state (a fatal runtime error is attributed by the driver as process-crash); non-trivial = some op spanned the wrap point of the backing array, or Write hit Len==Cap, "
          "or Read hit empty; distinct = FNV hash of (capacity, op list)",
